@@ -67,9 +67,14 @@ X_ALL = [
     conv('to_rgba', r'struct default_color_converter_impl<C1,rgba_t> \{', OP),
     conv('from_rgba', r'struct default_color_converter_impl<rgba_t,C2> \{', OP),
     C07.X_INVERT, C07.X_DIV255, C07.X_MUL_U8,
+    # definition-count guard: the generic luminance functor and the uint8_t specialisation are the only definitions (a new specialisation is an extraction break)
+    X('lum_guard', CC, r'struct rgb_to_luminance_fn\b[^{;]*\{', nth=0, count=2, common=False),
 ]
 
 C = r'''
+#if 0  /* guard only (counted, never compiled) */
+@@lum_guard@@
+#endif
 typedef struct { uint8_t ch[5]; } pixel_t;            /* channels in MEMORY order */
 typedef uint8_t GrayChannelValue; typedef uint8_t uint_t_;
 #define CH_MIN ((uint8_t)0)
@@ -337,6 +342,15 @@ int main(int argc, char** argv){ vr::parse(argc, argv);
     if (r2 != rgb8_pixel_t(255, 255, 255)) REPRODUCED("cmyk32f white -> rgb8 (%d,%d,%d), expected (255,255,255)", (int)r2[0], (int)r2[1], (int)r2[2]);
     for (int a = 0; a < 256; a += 51) for (int b = 0; b < 256; b += 51) for (int c = 0; c < 256; c += 51) { rgb8_pixel_t p(a, b, c), q; cmyk32f_pixel_t k; color_convert(p, k); color_convert(k, q);
       if (std::abs((int)q[0] - a) > 1 || std::abs((int)q[1] - b) > 1 || std::abs((int)q[2] - c) > 1) REPRODUCED("rgb8 (%d,%d,%d) -> cmyk32f -> rgb8 gives (%d,%d,%d)", a, b, c, (int)q[0], (int)q[1], (int)q[2]); } }
+  { // 16-bit and float channels: luminance is within two units of .30 r + .59 g + .11 b, white -> white, black -> black, monotone on a grid
+    const int G[] = {0, 1, 255, 256, 4660, 32767, 32768, 65279, 65534, 65535}; long bad16 = 0;
+    for (int r : G) for (int g : G) for (int b : G) { rgb16_pixel_t p(r, g, b); gray16_pixel_t q; color_convert(p, q); double want = 0.30 * r + 0.59 * g + 0.11 * b;
+      if (std::abs((double)q[0] - want) > 2.0) { if (!bad16++) std::printf("rgb16 (%d,%d,%d) -> gray16 %d, expected about %.2f\n", r, g, b, (int)q[0], want); }
+      rgb16_pixel_t p2(r, g, b == 65535 ? b : b + 1); gray16_pixel_t q2; color_convert(p2, q2); if (q2[0] < q[0]) { if (!bad16++) std::printf("rgb16 luminance not monotone in blue at (%d,%d,%d)\n", r, g, b); }
+      cmyk16_pixel_t k; color_convert(p, k); gray16_pixel_t q3; color_convert(k, q3); (void)q3;
+      rgb32f_pixel_t pf(r / 65535.f, g / 65535.f, b / 65535.f); gray32f_pixel_t qf; color_convert(pf, qf); if (std::abs((double)qf[0] * 65535.0 - want) > 2.0) { if (!bad16++) std::printf("rgb32f luminance off at (%d,%d,%d)\n", r, g, b); } }
+    gray8_pixel_t w8; color_convert(rgb16_pixel_t(65535, 65535, 65535), w8); if (w8[0] != 255) { if (!bad16++) std::printf("rgb16 white -> gray8 %d\n", (int)w8[0]); }
+    if (bad16) REPRODUCED("%ld 16-bit / float luminance results are off (see above)", bad16); }
   if (bad) REPRODUCED("%ld pixels: color_convert into this layout does not pair channels by colour name / from rgba is not the conversion of the premultiplied rgb", bad);
   if (bada) REPRODUCED("%ld pixels: alpha not set to max when converting from a colour space without alpha", bada);
   NOT_REPRODUCED("conversions agree with the canonical-layout conversion"); }
@@ -344,7 +358,7 @@ int main(int argc, char** argv){ vr::parse(argc, argv);
 
 
 def unit(name, src, dst, checks, tier='quick'):
-    return Unit('cc.' + name, 'C09', C, extracts=[x for x in X_ALL if x.ident in NEEDED[name] or x.ident in ('invert', 'div255', 'mul_u8', 'lum_u8')],
+    return Unit('cc.' + name, 'C09', C, extracts=[x for x in X_ALL if x.ident in NEEDED[name] or x.ident in ('invert', 'div255', 'mul_u8', 'lum_u8', 'lum_guard')],
                 checks=checks, insts=[(name, tier, {'T_SRCP': src, 'T_DSTP': dst})], probe_includes=['boost/gil.hpp'], probe=PROBE, probe_pre=PROBE_PRE,
                 replay=REPLAY, assumed=['8-bit to 8-bit channel_convert is the identity (C06 conv.u8_u8)', 'pixel(v0,...,vn) stores its arguments in memory order (pixel.hpp / color_base.hpp constructors, C05)'])
 
